@@ -20,6 +20,9 @@ CHECKS = {
  "C04": ("Differential exhaustive exploration, implementation against itself: for every base program of the BFS universe (plus a pool with lets at every scope, forward/backward and repeated named references, same-named definitions) every permutation (collections of <= 4 items) of lines, alternatives and rules, every repetition of a line/alternative and every duplication of a rule under a fresh name is applied (depth 1 everywhere, depth 2 on the smallest programs) and per-rule and file statuses are compared on every document.",
          "Collections of more than 4 items are not permuted (the property says 'sampled beyond'; no sampling is done here). Orderings that raise an evaluation error are counted, not compared, as the property allows. Key-capture syntax is not generated.",
          "exhaustive enumeration of permutation/duplication edges over a BFS program universe, differential oracle on the implementation"),
+ "C15": ("Differential exhaustive exploration, implementation against itself: for every base program (BFS universe plus a literal-rich pool) and every occurrence of a literal or query (and every query prefix) in it, the occurrence is abstracted into a let at each legal scope (file, rule, enclosing block), with second references before/after, unused variables at every scope, a shadowing outer definition, and the inverse for parameterised rules with literal and query arguments; statuses of the original rules are compared on every document.",
+         "The documented exception (emptiness test on a bare variable / filter result) is excluded. A disagreement is attributed to the recorded finding K-VAR only when the reference model of exactly that pinned behaviour predicts the observation.",
+         "exhaustive enumeration of abstraction edges over a BFS program universe, differential oracle on the implementation"),
 }
 PENDING_REASON = "check under construction in this round (design in DESIGN.md section 5); not claimed until its quick tier runs clean on the unchanged tree"
 ALL = ["C%02d" % i for i in range(1, 20)]
